@@ -6,22 +6,22 @@ to the value.  Tie (C): the same model is compared with cassandra.cqltypes (byte
 hand-written marshal model with cassandra.marshal.  The property itself is checked on the implementation by
 comparing the driver's bytes with the Coq specification evaluated on the same value.
 """
-import json, os
+import json, os, time
 from vf import core
 from vf import codec_gen as G
 from vf import codec_run as R
+from vf import marshal_validation as MV
 
 META = {
-    'technique': 'Coq proof (induction over type trees; bit-level lemmas for varint/vint) that the model of cqltypes.to_binary equals an '
+    'technique': 'Coq proof (induction over type trees; marshal.py translated from source + bridge lemmas) that the model of cqltypes.to_binary equals an '
                  'independent specification of Cassandra\'s serializers + differential correspondence of model and spec with the real driver',
-    'level_text': 'PARTIAL proof: C02_fixed_width_exact, C02_scalar_exact_partial (all scalars but varint/decimal/duration: exact bytes on the range, '
-                  'refused outside), C02_null_element_exact (-1 for null, refused in v1/v2), C02_zigzag_exact, C02_uvint_reads_back, C02_vints_decode, '
-                  'C02_varint_value, C02_never_another_value and C02_decodes_image (all types, unbounded nesting) are proved. NOT proved: the lifting '
-                  'to_binary = spec_enc through arbitrary type trees (C02_full_statement), varint = BigInteger.toByteArray minimality, vint = VIntCoding; '
-                  'these are checked every run by comparing the driver\'s bytes with the Coq specification on generated nested values.',
+    'level_text': 'C02_full (to_binary = spec_result: exact bytes on every value that has an encoding, an exception otherwise, for every type tree, '
+                  'protocol version and kind-correct value, by induction over types), C02_exact, C02_rejects, C02_decodes_spec_image, C02_scalar_exact, '
+                  'C02_never_another_value, plus the source-level C02_source_* theorems (varint = BigInteger.toByteArray incl. minimality, vints/uvint = VIntCoding '
+                  'incl. rejection) and C02_bridge_source_eq_model, proved over Model/CqlCodec.v and Gallina regenerated from cassandra/marshal.py.',
     'level_note': 'The specification is my transcription of Cassandra\'s serializers (trusted). Fixed-width table for vectors is the driver\'s own. '
-                  'float32 rounding of Python floats is struct\'s (floats are quantified as bit patterns). marshal.py functions are hand-modelled '
-                  '(MarshalModel.v) and tied by correspondence until they are regenerated from source.',
+                  'float32 rounding of Python floats is struct\'s (floats are quantified as bit patterns). The type-directed codec (cqltypes.py) is a hand-written '
+                  'model tied by correspondence; marshal.py is translated (T) and bridged to the model.',
     'design_ref': 'DESIGN.md section 4, C02',
 }
 
@@ -34,19 +34,31 @@ def classify(c):
     return tail
 
 
+def gen(ctx):
+    # (T) cassandra/marshal.py regenerated into coq/Gen/MarshalGen.v; MarshalBridge.v proves it equal to MarshalModel.v
+    return MV.gen(ctx, parts=('marshal',))
+
+
 def run(ctx):
+    T = ctx.extra.setdefault('timings_s', {})
+    t0 = time.time()
+    gen(ctx)
     ok = ctx.prove('Props/C02.v')
+    T['prove'] = round(time.time() - t0, 1); t0 = time.time()
     if ctx.tier == 'thorough' and ok:
         ctx.coqchk('Props/C02.v')
     quick = ctx.tier == 'quick'
     cases = R.gen_cases(ctx, 1500 if quick else 20000, 400 if quick else 4000, 500 if quick else 8000, 4 if quick else 6)
+    cases += R.image_cases()
     R.record(ctx, cases)
     ctx.rule = ('random type trees (depth <= %d) x protocol versions x typed values (boundary pools, nulls at every level), special shapes, corpus, '
+                '16-40 KiB vector elements, hand-built Cassandra encodings (tuples/UDTs with empty fields), '
                 'range-boundary stream (min-1, min, max, max+1 of every ranged type, alone and inside containers), shape-error stream, '
                 'mutated-bytes decode stream, direct marshal.py stream; non-trivial = nested type or non-zero scalar; distinct by (stream, pv, type, value)'
                 % (4 if quick else 6))
     ctx.exhaustive = False
     enc_cases = [c for c in cases if 'bs' not in c]
+    T['cases'] = round(time.time() - t0, 1); t0 = time.time()
     # ---- the property on the implementation: driver bytes == specification (or both refuse)
     try:
         bad = ctx.coq_filter(R.MODEL_REQ, '(fun b : bool => b)', R.spec_exprs(enc_cases), shard=200)
@@ -66,8 +78,37 @@ def run(ctx):
                           case={'pv': c['pv'], 't': c['t'], 'v': c['v']}, expected=spec, actual=c['enc'] if c['enc'] is not None else c['enc_exc'],
                           theorem='C02_exact_or_rejects')
         ctx.extra['spec_mismatches'] = len(bad)
+        # "any encoding Cassandra produces decodes to the value Cassandra means by it": where the driver's bytes ARE the
+        # specification's bytes (just checked), what the driver decodes from them must be the value
+        badset = set(bad)
+        for i, c in enumerate(enc_cases):
+            if i not in badset:
+                R.decode_oracle(ctx, c, 'decodes-image', 'C02_decodes_image', 'Cassandra\'s encoding of x does not decode to x')
     except RuntimeError as e:
         ctx.proof_broken.append(('oracle:CassandraSpec', str(e)[-800:]))
+    T['spec_oracle'] = round(time.time() - t0, 1); t0 = time.time()
+    for c in cases:
+        if c['stream'] == 'image':
+            R.image_oracle(ctx, c)
+    # ---- cassandra.marshal against the specification (BigInteger.toByteArray, VIntCoding) and against itself
+    R.marshal_impl_oracle(ctx, ctx.rng, 40 if quick else 1000)
+    try:
+        exprs, meta = R.marshal_spec_exprs(ctx.rng, 40 if quick else 1000)
+        ctx.count('stream', 'marshal-spec', len(exprs))
+        bad = ctx.coq_filter(R.MODEL_REQ, '(fun b : bool => b)', exprs, shard=200)
+        want = ctx.coq_eval(R.MODEL_REQ, [meta[i][3] for i in bad[:10]]) if bad else []
+        for n, i in enumerate(bad[:10]):
+            fn, arg, got, _ = meta[i]
+            ctx.violation('marshal.%s.exact' % fn, 'cassandra.marshal.%s(%r) = %s but the specification says %s'
+                          % (fn, arg, bytes(got).hex() if got is not None else 'raises', want[n][:200]),
+                          case={'fn': fn, 'arg': arg}, expected=want[n], actual=got, theorem='C02_source_%s' % fn)
+    except RuntimeError as e:
+        ctx.proof_broken.append(('oracle:CassandraSpecInt', str(e)[-800:]))
+    T['model+marshal'] = round(time.time() - t0, 1); t0 = time.time()
+    try:
+        MV.validate(ctx, parts=('marshal',))
+    except Exception as e:
+        ctx.proof_broken.append(('T-marshal validation', repr(e)[-400:]))
     # ---- the model against the implementation (bytes and decoded values, decode stream included)
     try:
         bad = ctx.coq_filter(R.MODEL_REQ, '(fun b : bool => b)', R.model_exprs(cases), shard=200)
@@ -91,6 +132,7 @@ def run(ctx):
             pass
     except RuntimeError as e:
         ctx.proof_broken.append(('correspondence:MarshalModel', str(e)[-800:]))
+    T['t_validate'] = round(time.time() - t0, 1)
     ctx.trust('independent specification Model/CassandraSpec.v + CassandraSpecInt.v (transcribed from the protocol spec / Cassandra sources from memory)',
               'hand-written model Model/CqlCodec.v + MarshalModel.v + Utf8Model.v (tied by correspondence only)',
               'harness conversions model value <-> Python object (lib/vf/codec_gen.py)',
